@@ -228,7 +228,7 @@ class Executor(ExprMixin, StmtMixin, CallMixin, ContractMixin):
             # frame
             self.frame = []
             for ref, field, guard in self.eval_locations(st, c.modifies, st.env):
-                if guard == 'ALL':
+                if isinstance(guard, str) and guard == 'ALL':
                     self.frame.append(('ALL', field, ref.ty.cls))
                 else:
                     self.frame.append((ref.t, field))
@@ -236,8 +236,18 @@ class Executor(ExprMixin, StmtMixin, CallMixin, ContractMixin):
             if is_init:
                 st.init_assigned = set()
                 self.frame.append((st.env['self'].t, None))
-                # a new object's attribute dictionary is empty
+                # a new object's attribute dictionary is empty; class attributes show through
                 cls_ = st.env['self'].ty.cls
+                self.class_attr_defaults(st, st.env['self'], cls_)
+                for q_ in self.classes.mro(cls_):
+                    m_ = api.MODELS.get(q_)
+                    for f_, dv_ in (m_.defaults.items() if m_ is not None else ()):
+                        _, ft_ = self.classes.field(q_, f_)
+                        a_ = self.heap_array(st, (q_, f_), ft_)
+                        st.heap[(q_, f_)] = z3.Store(a_, st.env['self'].t, box(coerce(
+                            self.const_value(ast.literal_eval(dv_)), ft_, self.classes)))
+                self.pre_state = st.copy()
+                self.old_state = self.pre_state
                 dc_, fty_ = self.classes.field(cls_, '_dict')
                 if dc_ is not None:
                     from .values import empty_map
